@@ -31,6 +31,7 @@ type hmacGen struct {
 	probe     bool  // base request is a completeness probe
 	pairsPart int   // >=0: emit only the base request and part k of the 2-element mutation sets
 	nonce     func() string
+	body      []byte // body of the un-mutated request
 	out       []*reqCase
 }
 
@@ -38,10 +39,11 @@ func (g *hmacGen) ts() string { return strconv.FormatInt(g.S, 10) }
 
 func (g *hmacGen) base() *reqCase {
 	ts := g.ts()
-	return &reqCase{Method: "POST", Target: g.cfg.Route, Body: append([]byte(nil), baseBody...),
+	body := g.body
+	return &reqCase{Method: "POST", Target: g.cfg.Route, Body: append([]byte(nil), body...),
 		Hdrs: []hdr{
 			{"Content-Type", "application/json"},
-			{g.cfg.SigH, sign(g.sg.Key, ts, "POST", g.cfg.Route, baseBody)},
+			{g.cfg.SigH, sign(g.sg.Key, ts, "POST", g.cfg.Route, body)},
 			{g.cfg.TsH, ts},
 			{g.cfg.NonceH, g.nonce()},
 		}}
@@ -95,9 +97,10 @@ const hexAlpha = "0123456789abcdef"
 
 func (g *hmacGen) all() []*reqCase {
 	cfg := g.cfg
+	body := g.body
 	sigH, tsH, nonceH := cfg.SigH, cfg.TsH, cfg.NonceH
 	ts := g.ts()
-	sig := sign(g.sg.Key, ts, "POST", cfg.Route, baseBody)
+	sig := sign(g.sg.Key, ts, "POST", cfg.Route, body)
 
 	// ---- the unmodified request
 	g.emit("base", "", func(c *reqCase) { c.Probe = g.probe })
@@ -118,8 +121,8 @@ func (g *hmacGen) all() []*reqCase {
 			}
 		}
 		// every pair of single-bit flips in the body (8128 cases)
-		for p := 0; p < len(baseBody)*8; p++ {
-			for q := p + 1; q < len(baseBody)*8; q++ {
+		for p := 0; p < len(body)*8; p++ {
+			for q := p + 1; q < len(body)*8; q++ {
 				if n++; n%pairsParts != g.pairsPart {
 					continue
 				}
@@ -240,14 +243,14 @@ func (g *hmacGen) all() []*reqCase {
 	g.emit("sig:ows", "leading-tab", func(c *reqCase) { setH(c, sigH, "\t"+sig) })
 	// other encodings / algorithms / string-to-sign layouts of the right key
 	{
-		msg := signText(ts, "POST", cfg.Route, baseBody)
+		msg := signText(ts, "POST", cfg.Route, body)
 		m := hmac.New(sha256.New, g.sg.Key)
 		m.Write(msg)
 		rawMac := m.Sum(nil)
 		m1 := hmac.New(sha1.New, g.sg.Key)
 		m1.Write(msg)
 		plain := sha256.Sum256(append(append([]byte(nil), g.sg.Key...), msg...))
-		bodySum := sha256.Sum256(baseBody)
+		bodySum := sha256.Sum256(body)
 		bh := hex.EncodeToString(bodySum[:])
 		alt := []struct{ d, v string }{
 			{"base64", base64.StdEncoding.EncodeToString(rawMac)},
@@ -259,12 +262,12 @@ func (g *hmacGen) all() []*reqCase {
 			{"layout:crlf", macHex(g.sg.Key, []byte(ts+"\r\n"+"POST"+"\r\n"+cfg.Route+"\r\n"+bh))},
 			{"layout:trailing-newline", macHex(g.sg.Key, []byte(ts+"\n"+"POST"+"\n"+cfg.Route+"\n"+bh+"\n"))},
 			{"layout:method-first", macHex(g.sg.Key, []byte("POST"+"\n"+ts+"\n"+cfg.Route+"\n"+bh))},
-			{"layout:raw-body", macHex(g.sg.Key, []byte(ts+"\n"+"POST"+"\n"+cfg.Route+"\n"+string(baseBody)))},
+			{"layout:raw-body", macHex(g.sg.Key, []byte(ts+"\n"+"POST"+"\n"+cfg.Route+"\n"+string(body)))},
 			{"layout:body-hash-uppercase", macHex(g.sg.Key, []byte(ts+"\n"+"POST"+"\n"+cfg.Route+"\n"+strings.ToUpper(bh)))},
 			{"layout:no-path", macHex(g.sg.Key, []byte(ts+"\n"+"POST"+"\n"+bh))},
 			{"layout:no-method", macHex(g.sg.Key, []byte(ts+"\n"+cfg.Route+"\n"+bh))},
 			{"layout:no-timestamp", macHex(g.sg.Key, []byte("POST"+"\n"+cfg.Route+"\n"+bh))},
-			{"layout:body-only", macHex(g.sg.Key, baseBody)},
+			{"layout:body-only", macHex(g.sg.Key, body)},
 			{"layout:with-nonce", macHex(g.sg.Key, []byte(ts+"\n"+"POST"+"\n"+cfg.Route+"\n"+bh+"\n"+"nonce"))},
 			{"layout:lowercase-method", macHex(g.sg.Key, []byte(ts+"\n"+"post"+"\n"+cfg.Route+"\n"+bh))},
 			{"key:empty", macHex(nil, msg)},
@@ -330,7 +333,7 @@ func (g *hmacGen) all() []*reqCase {
 	}
 
 	// ---- body: every single-bit flip of the 16 bytes, and length edits
-	for i := 0; i < len(baseBody); i++ {
+	for i := 0; i < len(body); i++ {
 		for bit := 0; bit < 8; bit++ {
 			i, bit := i, bit
 			g.emit("body:bitflip", fmt.Sprintf("byte=%d,bit=%d", i, bit), func(c *reqCase) { c.Body[i] ^= 1 << uint(bit) })
@@ -340,12 +343,12 @@ func (g *hmacGen) all() []*reqCase {
 		d string
 		v []byte
 	}{
-		{"append-newline", append(append([]byte(nil), baseBody...), '\n')}, {"append-space", append(append([]byte(nil), baseBody...), ' ')},
-		{"prepend-space", append([]byte(" "), baseBody...)}, {"append-nul", append(append([]byte(nil), baseBody...), 0)},
-		{"append-crlf", append(append([]byte(nil), baseBody...), '\r', '\n')}, {"prepend-bom", append([]byte("\xef\xbb\xbf"), baseBody...)},
-		{"truncate-1", baseBody[:len(baseBody)-1]}, {"drop-first", baseBody[1:]}, {"empty", nil}, {"doubled", append(append([]byte(nil), baseBody...), baseBody...)},
-		{"uppercase", []byte(strings.ToUpper(string(baseBody)))}, {"reordered-json", []byte(`{"n":12,"k":"v"}`)},
-		{"hash-of-body", []byte(hexSum(baseBody))},
+		{"append-newline", append(append([]byte(nil), body...), '\n')}, {"append-space", append(append([]byte(nil), body...), ' ')},
+		{"prepend-space", append([]byte(" "), body...)}, {"append-nul", append(append([]byte(nil), body...), 0)},
+		{"append-crlf", append(append([]byte(nil), body...), '\r', '\n')}, {"prepend-bom", append([]byte("\xef\xbb\xbf"), body...)},
+		{"truncate-1", body[:max(len(body)-1, 0)]}, {"drop-first", body[min(1, len(body)):]}, {"empty", nil}, {"doubled", append(append([]byte(nil), body...), body...)},
+		{"uppercase", []byte(strings.ToUpper(string(body)))}, {"reordered-json", []byte(`{"n":12,"k":"v"}`)},
+		{"hash-of-body", []byte(hexSum(body))},
 	} {
 		v := e.v
 		g.emit("body:length-edit", e.d, func(c *reqCase) { c.Body = append([]byte(nil), v...) })
